@@ -176,7 +176,7 @@ def _one_name(platform, version, proto, name, ctx):
                 ctx.viol("Port:alias_roundtrip", case, dict(line=line, ports=back.ports[:5]),
                          [gold])
     # the name must be split as a port (not as an option) in both positions of an ACE
-    if platform != "asa":
+    if True:
         for pos, text in (("dst", f"permit {proto} any any eq {name} log"),
                           ("src", f"permit {proto} any eq {name} any log"),
                           ("dst+flag", f"permit {proto} any any eq {name} "
